@@ -205,11 +205,22 @@ class DocActions(object):
                      if k in col_info}
 
     # Remove the column from the schema, then re-add it, to force creation of a new column object.
-    schema_table_info.columns.pop(col_id)
-    self._engine.rebuild_usercode()
+    try:
+      schema_table_info.columns.pop(col_id)
+      self._engine.rebuild_usercode()
 
-    schema_table_info.columns[col_id] = new
-    self._engine.rebuild_usercode()
+      schema_table_info.columns[col_id] = new
+      self._engine.rebuild_usercode()
+    except Exception:
+      # E.g. an invalid type. The old column object may already be discarded, so restoring the
+      # schema alone would bring the column back empty: put back its definition and its data.
+      schema_table_info.columns[col_id] = old
+      self._engine.rebuild_usercode()
+      restored_column = table.get_column(col_id)
+      if restored_column is not old_column:
+        for row_id in table.row_ids:
+          restored_column.set(row_id, old_column.raw_get(row_id))
+      raise
 
     # Fill in the new column with the values from the old column.
     new_column = table.get_column(col_id)
